@@ -358,6 +358,54 @@ def interactive_cli_check(res):
     res.count('interactive_session_failures', nbad)
 
 
+SIBLING_IMPL = r'''
+import sys, json, os, hashlib, tempfile, shutil
+from rbql import rbql_csv
+out = []
+sha = lambda p: hashlib.sha256(open(p, 'rb').read()).hexdigest() if os.path.exists(p) else 'missing'
+for suffix in ('.tmp', '.bak', '~', '.part', '.swp', '.new', '.old', '.lock', '.1'):
+    for role in ('input', 'join'):
+        for query in ('select a1, b2 join JOIN on a1 == b1', 'select a1, int(b2) join JOIN on a1 == b1'):
+            d = tempfile.mkdtemp(prefix='rbqlverif_c06s_')
+            try:
+                outp = os.path.join(d, 'report.csv')
+                inp = outp + suffix if role == 'input' else os.path.join(d, 'in.csv')
+                jp = outp + suffix if role == 'join' else os.path.join(d, 'j.csv')
+                open(inp, 'w').write('k1,x\nk2,y\n'); open(jp, 'w').write('k1,J1\nk2,J2\n')
+                before = (sha(inp), sha(jp))
+                err = None
+                try:
+                    rbql_csv.query_csv(query.replace('JOIN', jp, 1), inp, ',', 'quoted', outp, ',', 'quoted', 'utf-8', [], False)
+                except Exception as e:
+                    err = type(e).__name__
+                out.append({'suffix': suffix, 'role': role, 'query': query, 'same': (sha(inp), sha(jp)) == before, 'err': err, 'files': sorted(os.listdir(d))})
+            finally:
+                shutil.rmtree(d, ignore_errors=True)
+print(json.dumps(out))
+'''
+
+
+def sibling_names_check(res):
+    """source files that sit NEXT to the output under a derived-looking name (<output>.tmp, <output>.bak, <output>~ …): whatever scratch files the front-end may use
+    while it writes, the input and join files are the same afterwards, on success and on failure"""
+    r = subprocess.run([common.PY, '-W', 'ignore', '-c', SIBLING_IMPL], env=common.impl_env(), stdout=subprocess.PIPE, stderr=subprocess.PIPE, timeout=300)
+    try:
+        outs = json.loads(r.stdout.decode().strip().split('\n')[-1])
+    except (ValueError, IndexError):
+        raise RuntimeError('C06 sibling-names driver failed: ' + r.stderr.decode()[-400:])
+    nbad = 0
+    for o in outs:
+        res.evaluations += 1
+        res.nontrivial.add(('sibling', o['suffix'], o['role'], o['query']))
+        if not o['same']:
+            nbad += 1
+            if nbad <= 2:
+                res.violations.append({'property': 'C06', 'impl': 'py', 'why': 'a source CSV file named like a scratch file of the output changed or disappeared', 'observed': o,
+                                       'case_key': 'C06|sibling|%s|%s|%s' % (o['suffix'], o['role'], o['query'])})
+    res.count('sibling_name_cases', len(outs))
+    res.count('sibling_name_failures', nbad)
+
+
 def js_nested_csv():
     r = subprocess.run([common.NODE, '-e', JS_NESTED], env=common.impl_env(), stdout=subprocess.PIPE, stderr=subprocess.PIPE, timeout=300)
     try:
@@ -461,6 +509,7 @@ def run(res, tier, seed):
     column_names_untouched_check(res)
     js_undefined_cells(res)
     interactive_cli_check(res)
+    sibling_names_check(res)
     # (c) pandas, (d) sqlite file, (e) CSV files
     rect = [c for c in cases if c['A'] and len(set(len(r) for r in c['A'])) == 1 and all(isinstance(x, str) for r in c['A'] for x in r)
             and (c.get('B') is None or (c['B'] and all(len(r) == 2 and all(isinstance(x, str) for x in r) for r in c['B'])))][:300 if tier == 'quick' else 3000]
